@@ -486,6 +486,21 @@ def extract_until(
         )
 
 
+def recorded_errors(item: Union[Stack, Context]) -> Iterator[Exception]:
+    """Yield the errors recorded on *item* and on every stack nested within it."""
+    if isinstance(item, Stack):
+        if item.error is not None:
+            yield item.error
+        for frame in item.frames:
+            for context in frame.contexts:
+                yield from recorded_errors(context)
+    else:
+        if item.inner_stack is not None:
+            yield from recorded_errors(item.inner_stack)
+        for child in item.children:
+            yield from recorded_errors(child)
+
+
 def fill_context(context: Context) -> None:
     """Augment the given newly-constructed `Context` object using the
     context manager hooks (:func:`unwrap_context` and :func:`elaborate_context`),
@@ -498,25 +513,42 @@ def fill_context(context: Context) -> None:
             fill_context(context)
         return
 
-    for _ in range(100):
-        if TYPE_CHECKING:
-            from typing import ContextManager, AsyncContextManager
+    # Errors recorded on an inner stack or child that we discard because
+    # the context got unwrapped further; they would otherwise be lost
+    discarded_errors: List[Exception] = []
 
-            assert isinstance(context.obj, (ContextManager, AsyncContextManager))
-        elaborate_context(context.obj, context)
-        inner_mgr = unwrap_context(context.obj, context)
-        if inner_mgr is None:
-            break
-        if inner_mgr == PRUNE:
-            context.hide = True
-            break
-        context.obj = inner_mgr
-        context.inner_stack = None
-        context.children = ()
-    else:
-        inner_mgr = unwrap_context(context.obj, context)  # type: ignore
-        raise RuntimeError(
-            f"{context.obj!r} has been unwrapped more than 100 times "
-            f"without reaching something irreducible; probably an "
-            f"infinite loop? (next result is {inner_mgr!r})"
+    try:
+        for _ in range(100):
+            if TYPE_CHECKING:
+                from typing import ContextManager, AsyncContextManager
+
+                assert isinstance(context.obj, (ContextManager, AsyncContextManager))
+            elaborate_context(context.obj, context)
+            inner_mgr = unwrap_context(context.obj, context)
+            if inner_mgr is None:
+                break
+            if inner_mgr == PRUNE:
+                context.hide = True
+                break
+            context.obj = inner_mgr
+            discarded_errors.extend(recorded_errors(context))
+            context.inner_stack = None
+            context.children = ()
+        else:
+            inner_mgr = unwrap_context(context.obj, context)  # type: ignore
+            raise RuntimeError(
+                f"{context.obj!r} has been unwrapped more than 100 times "
+                f"without reaching something irreducible; probably an "
+                f"infinite loop? (next result is {inner_mgr!r})"
+            )
+    except Exception as ex:
+        if not discarded_errors:
+            raise
+        discarded_errors.append(ex)
+
+    if len(discarded_errors) > 1:
+        raise ExceptionGroup(
+            "multiple errors encountered while extracting stack", discarded_errors
         )
+    if discarded_errors:
+        raise discarded_errors[0]
